@@ -20,15 +20,15 @@ type dparty struct{ uri, tag string }
 
 type dlg struct {
 	pinStart time.Time
-	n       int
-	svc     int
-	kind    string // invite | subscribe
-	callID  string
-	a, b    dparty // a = the party that sent the initial request
-	backend int    // index into the service's backend list (config order), -1 unknown
-	pinned  bool
-	ended   bool
-	steps   int
+	n        int
+	svc      int
+	kind     string // invite | subscribe
+	callID   string
+	a, b     dparty // a = the party that sent the initial request
+	backend  int    // index into the service's backend list (config order), -1 unknown
+	pinned   bool
+	ended    bool
+	steps    int
 	// subExpires: the Expires header of the answer that establishes a subscription
 	// ("" = 600, "-" = no such header, otherwise the value)
 	subExpires string
